@@ -224,7 +224,8 @@ static void check_outcome(Spectra::LOBPCGSolver<Real>& solver, const Problem& P,
     ld gerr = vf::maxabs(MatL(G - MatL::Identity(k, k)));
     const ld kappaB = P.lmaxB / P.lminB;
     const ld its = 1 + (ld) std::min<long>((long) n, std::max(0, maxit));
-    const ld tolG = CTOL * (ld) n * EPS * kappaB * its;
+    // (capped: an error of 1/4 is not "orthonormal up to rounding" whatever kappa(B) and the precision are)
+    const ld tolG = std::min<ld>(0.25L, CTOL * (ld) n * EPS * kappaB * its);
     c.feat[tag + "gram_err"] = (double) gerr;
     c.feat[tag + "coef_rows"] = (double) solver.m_evectors.rows();
     c.feat[tag + "min_gram_diag"] = (double) G.diagonal().minCoeff();
@@ -243,7 +244,8 @@ static void check_outcome(Spectra::LOBPCGSolver<Real>& solver, const Problem& P,
 
     // ---- residuals() == A X - B X diag(theta) ------------------------------------------------------------------------
     MatL Rtrue = P.Al * X - BX * th.asDiagonal();
-    const ld xnorm = vf::fro(X);
+    // ||X||_F of a B-orthonormal block is at most sqrt(k / lambda_min(B)); the recurrences that carry A X and B X have seen iterates of that size
+    const ld xnorm = std::max(vf::fro(X), std::sqrt((ld) k / P.lminB));
     const ld tolR = CTOL * (ld) n * EPS * (P.normA + thmax * P.normB) * xnorm * its;
     ld rdiff = vf::fro(MatL(Rp - Rtrue));
     VF_CHECK(rdiff <= tolR, "residual_identity", tag << "||residuals() - (A X - B X diag(ev))||_F = " << vf::num(rdiff) << " > " << vf::num(tolR) << " (private iterate)");
@@ -637,8 +639,14 @@ static void run_case(vf::Draw& d, vf::Case& c)
         }
         MatL Mx = Xp.transpose() * P.Bl * Xp;
         Eigen::SelfAdjointEigenSolver<MatL> em(Mx);
-        if (!(em.eigenvalues()[0] > 0))
-            P.cmin = 0;
+        Eigen::SelfAdjointEigenSolver<MatL> e0(MatL(X0l.transpose() * P.Bl * X0l), Eigen::EigenvaluesOnly);
+        if (!(em.eigenvalues()[0] > 1e-12L * e0.eigenvalues()[k - 1]))
+        {
+            // a start column lies in the span of the constraint vectors: the block the solver iterates on is rank deficient
+            c.rejected = true;
+            c.cls("start_rank_deficient_after_constraints");
+            return;
+        }
         else
         {
             MatL Mih = em.eigenvectors() * em.eigenvalues().cwiseSqrt().cwiseInverse().asDiagonal() * em.eigenvectors().transpose();
